@@ -72,7 +72,7 @@ check("C14", "model_checking",
 
 TERM_NOTE = ("Trusted: TLC; each primitive library as a primitive only (RustCrypto vs aws-lc/libsodium are forced to agree through the terms); "
              "the evaluator (knows no PASETO; its base64 and counter-increment primitives are themselves validated against Base64Url.tla / "
-             "Ctr.tla); L1's fidelity to the PASETO/PASERK texts. Derived-IV counter wrap (v3 local, PIE, PKE) is not reachable without a hook.")
+             "Ctr.tla); L1's fidelity to the PASETO/PASERK texts. Derived counter blocks (v3 local, PIE and PKE of k1/k3) are exercised through the cfg-guarded hook paseto_core::verif.")
 check("C03", "model_checking",
       "Construct.tla (L1) defines every token construction as a term; TLC prints the term for each (version, purpose, length tuple) and checks "
       "its layout arithmetic; the real seal output must equal the independently evaluated term (caller nonce and library randomness), "
@@ -158,8 +158,8 @@ def write(root="/verif"):
             na(p, "check not built yet in this revision of /verif (planned in DESIGN.md §4); not claimed until its check exists and passes")
     m = dict(version=1, setup_cmd="bin/check --setup",
              hooks=dict(guard="paseto_rs_verif",
-                        enable="harness/.cargo/config.toml rustflags: --cfg paseto_rs_verif --cfg getrandom_backend=\"custom\" (harness build only; /repo's own build is untouched)",
-                        baseline_off_cmd=BASELINE_OFF, source_commits=[], add_only=True),
+                        enable="harness/.cargo/config.toml rustflags: --cfg paseto_rs_verif --cfg getrandom_backend=\"custom\" (harness build only; /repo's own build is untouched). The one source hook is paseto_core::verif (derived AES-CTR counter block override), compiled only under the cfg",
+                        baseline_off_cmd=BASELINE_OFF, source_commits=["aa5467c"], add_only=True),
              engines=[dict(name="tlc+pv-harness", path="bin/check", serves_properties=sorted(CHECKS),
                            kind_free_text="TLA+ specifications under spec/ checked by TLC; Rust harness under harness/ records / replays the real crates; TLC validates the recordings")],
              checks=[CHECKS[p] for p in sorted(CHECKS)],
